@@ -22,7 +22,7 @@ ASSUMPTIONS = [
     "an exception 'assignment destination is read-only' raised from aquacrop code is an attempted write into a configured array and is reported as a violation",
     "objects not reachable from the model's parameter struct, clock, weather matrix or the user's input objects are not hashed; the filler crop used before the first season is not a configured parameter",
 ]
-BUDGET = {"quick": 220, "thorough": 3500}
+BUDGET = {"quick": 300, "thorough": 3500}
 DEEP = ["Maize", "MaizeGDD", "Cotton", "CottonGDD", "Sunflower", "SunflowerGDD", "Soybean", "SoybeanGDD", "AlfalfaGDD", "Sorghum", "SorghumGDD"]
 PROFILE = gen.profile(crops=DEEP * 2 + list(gen.CROPS), seasons=(1, 3), max_days=900, p_dz=0.5, p_soil_args=0.9, p_custom_soil=0.3,
                       p_gw=0.35, p_fm=0.5, p_ffm=0.3, p_co2=0.3, storms=(0, 4), rain=(("dry", 3), ("mid", 2), ("wet", 2)), switches=True,
